@@ -500,6 +500,36 @@ def identity_first(c, facts, R):
             c.bad(R, 'occurs-before-identity-test', 'unify() can call occurs(a, b) with a == b (X = X is then reported as a recursive type and the verdict depends on equation order) (%s:%s)' % (fn.file, ot['ln']))
 
 
+def reduce_first(c, facts, R):
+    """unify() looks at its operands only after reducing them with the current substitution - in every call, also the
+    recursive ones on nested tags, whose variables may have been bound a moment ago by the call before"""
+    import mirflow as MF
+    import pathrules as P
+    fn = c.anchor(R, 'oal_compiler::inference::unify::unify')
+    red = P.call_blocks(fn, 'union::reduce')
+    idx = MF.defs_index(fn)
+    got = set()
+    for b, t in red:
+        if len(t['args']) > 1 and 'l' in t['args'][1]:
+            got |= MF.slice_back(fn, t['args'][1]['l'], idx, through_calls=False)['args'] | ({t['args'][1]['l']} if t['args'][1]['l'] <= fn.mir['argc'] else set())
+    params = {i for i in range(1, fn.mir['argc'] + 1) if 'Tag' in fn.mir['locals'][i]['ty'] and 'UnionFind' not in fn.mir['locals'][i]['ty']}
+    missing = sorted(params - got)
+    if missing:
+        c.bad(R, 'operands-not-reduced:%s' % ','.join(fn.mir['locals'][i].get('name') or str(i) for i in missing), 'unify() no longer reduces its operand(s) %s before looking at them: a nested variable bound by the previous recursive call still looks unbound, the occurs check passes and two different concrete tags are merged (the verdict then depends on the order of equations)' % [fn.mir['locals'][i].get('name') or i for i in missing])
+        return
+    # nothing but reduce() reads the raw parameters
+    raw = []
+    for pi in sorted(params):
+        locs, calls = MF.forward_uses(fn, pi)
+        for d, t, bi, ai in calls:
+            if not P.strip(d).endswith('union::reduce') and P.strip(d).split('::')[-1] not in ('deref', 'clone', 'borrow', 'as_ref'):
+                raw.append((fn.mir['locals'][pi].get('name') or pi, P.strip(d).split('::')[-1]))
+    if raw:
+        c.bad(R, 'raw-operand-used:%s' % ','.join(sorted({'%s->%s' % x for x in raw})), 'unify() also uses an unreduced operand (%s)' % sorted(set(raw)))
+    else:
+        c.ok(R, {'unify': 'both operands pass through union::reduce before anything else reads them', 'operands': sorted(fn.mir['locals'][i].get('name') or str(i) for i in params)})
+
+
 def occurs_existential(c, facts, R):
     """occurs(a, b) is true when a occurs in ANY nested tag of b: sub-results are combined with || / any, never && / all"""
     fn = c.anchor(R, 'oal_compiler::inference::unify::occurs')
